@@ -34,6 +34,9 @@ type Exporter struct {
 	tree   *ImmutableTree
 	ch     chan *ExportNode
 	cancel context.CancelFunc
+	// err is the error which ended the traversal early, if any. It is written by the export
+	// goroutine before it closes ch and only read after ch was found closed.
+	err error
 }
 
 // NewExporter creates a new Exporter. Callers must call Close() when done.
@@ -61,7 +64,20 @@ func newExporter(tree *ImmutableTree) (*Exporter, error) {
 
 // export exports nodes
 func (e *Exporter) export(ctx context.Context) {
-	e.tree.root.traversePost(e.tree, true, func(node *Node) bool {
+	defer close(e.ch)
+
+	t := e.tree.root.newTraversal(e.tree, nil, nil, true, false, true)
+	for {
+		node, err := t.next()
+		if err != nil {
+			// a node could not be loaded: the stream is incomplete, Next must say so
+			e.err = err
+			return
+		}
+		if node == nil {
+			return
+		}
+
 		exportNode := &ExportNode{
 			Key:     node.key,
 			Value:   node.value,
@@ -71,18 +87,19 @@ func (e *Exporter) export(ctx context.Context) {
 
 		select {
 		case e.ch <- exportNode:
-			return false
 		case <-ctx.Done():
-			return true
+			return
 		}
-	})
-	close(e.ch)
+	}
 }
 
 // Next fetches the next exported node, or returns ExportDone when done.
 func (e *Exporter) Next() (*ExportNode, error) {
 	if exportNode, ok := <-e.ch; ok {
 		return exportNode, nil
+	}
+	if e.err != nil {
+		return nil, e.err
 	}
 	return nil, ErrorExportDone
 }
